@@ -350,6 +350,10 @@ func (s *Sim) Verify(what string) bool {
 			s.res.Failf("%s: view %d reports %+v, the Go-slice model says %+v", what, vi, h, want)
 			return false
 		}
+		if m := kit.RawMismatch(v.buf.Raw(), want); m != "" && v.cp%v.c == 0 {
+			s.res.Failf("%s: view %d: %s", what, vi, m)
+			return false
+		}
 		st := s.stor[v.sid]
 		for k := 0; k < v.ln; k++ {
 			if got := v.buf.Get(k); !kit.SameVal(got, st[v.off+k]) {
